@@ -2,6 +2,7 @@ import Cardutil.SrcTie.Base
 import Cardutil.Gen.Src
 import Cardutil.Model.Iso8583
 import Cardutil.Props.C02
+import Cardutil.Props.C07
 /-
   Source tie for the element layout (C02): the translated `iso8583._get_field_length` and `_field_to_iso8583` —
   with `_pytype_to_string` and the text encoding as PARAMETERS (any functions of their types) — ARE the model's
@@ -18,7 +19,7 @@ def ftypeText : FType → Text
   | .lllvar => [76, 76, 76, 86, 65, 82]
 
 /-- the configuration entry as the translated code sees it -/
-def toRt (f : FieldCfg) : Rt.BitCfg := ⟨ftypeText f.ftype, (f.length : Int)⟩
+def toRt (f : FieldCfg) : Rt.BitCfg := { field_type := ftypeText f.ftype, field_length := (f.length : Int) }
 
 def ofSB : Rt.SB → Val
   | .str t => .str t
@@ -284,5 +285,98 @@ theorem C08_source_negative_refused (env : Env) (f : FieldCfg) (data : Bytes) (t
   have h0 : ¬ (f.prefixLen = 0) := by omega
   simp only [fieldLength, h0, if_false, hd, hi]
   rfl
+
+/-! ### the typed conversion on decode (`_string_to_pytype`; C01, C07, C08) -/
+
+def pytypeText : PyType → Text
+  | .str => []
+  | .int => [105, 110, 116]
+  | .decimal => [100, 101, 99, 105, 109, 97, 108]
+  | .datetime => [100, 97, 116, 101, 116, 105, 109, 101]
+
+def dirText : Directive → Text
+  | .y => [37, 121] | .Y => [37, 89] | .m => [37, 109] | .d => [37, 100]
+  | .H => [37, 72] | .M => [37, 77] | .S => [37, 83]
+  | .lit c => [c]
+
+/-- the format string of a directive list -/
+def fmtText (ds : List Directive) : Text := ds.flatMap dirText
+
+/-- the configuration entry with its type and date format, as the translated `_string_to_pytype` sees it -/
+def toRtTyped (f : FieldCfg) : Rt.BitCfg :=
+  { field_type := ftypeText f.ftype, field_length := (f.length : Int),
+    field_python_type := pytypeText f.pytype, field_date_format := some (fmtText f.dateFmt) }
+
+def valOfPy : Rt.PyVal → Val
+  | .str t => .str t
+  | .int i => .int i
+  | .dec d => .dec d
+  | .dt d => .dt d
+
+/-- no literal '%' in the format (a '%' starts a directive) -/
+def NoPercent (ds : List Directive) : Prop := ∀ c, Directive.lit c ∈ ds → c ≠ 37
+
+theorem parseFormat_fmtText : ∀ (ds : List Directive), NoPercent ds → Rt.parseFormat (fmtText ds) = some ds := by
+  intro ds
+  induction ds with
+  | nil => intro _; rfl
+  | cons D ds ih =>
+    intro h
+    have ih' := ih (fun c hc => h c (by simp [hc]))
+    cases D with
+    | lit c =>
+      have hc : c ≠ 37 := h c (by simp)
+      simp only [fmtText, List.flatMap_cons, dirText, List.singleton_append] at ih' ⊢
+      unfold Rt.parseFormat
+      split
+      · rename_i heq; simp at heq
+      · rename_i c' rest heq
+        simp only [List.cons.injEq] at heq
+        exact absurd heq.1 hc
+      · rename_i c' rest hne heq
+        simp only [List.cons.injEq] at heq
+        obtain ⟨rfl, rfl⟩ := heq
+        rw [ih']; rfl
+    | _ =>
+      simp only [fmtText, List.flatMap_cons, dirText, List.cons_append, List.nil_append] at ih' ⊢
+      simp only [Rt.parseFormat, ih']
+      rfl
+
+/-- `_string_to_pytype`: the translation IS the model's typed conversion (values rendered into the model's `Val`) -/
+theorem string_to_pytype_eq (env : Env) (f : FieldCfg) (t : Text) (hk : env.classes = Gen.intClasses)
+    (hfmt : NoPercent f.dateFmt) :
+    Outcome.bind (Src._string_to_pytype t (toRtTyped f)) (fun v => .ok (valOfPy v)) = stringToPyType env f t := by
+  obtain ⟨ft, len, proc, pyt, dfmt⟩ := f
+  have hpf := parseFormat_fmtText dfmt hfmt
+  cases pyt with
+  | str => rfl
+  | int =>
+    have e : Src._string_to_pytype t (toRtTyped ⟨ft, len, proc, .int, dfmt⟩) =
+        Outcome.bind (Rt.intOfStr Gen.intClasses t) (fun i => .ok (Rt.PyVal.int i)) := rfl
+    rw [e]
+    simp only [stringToPyType, Rt.intOfStr, ← hk]
+    cases pyInt env.classes t <;> rfl
+  | decimal =>
+    have e : Src._string_to_pytype t (toRtTyped ⟨ft, len, proc, .decimal, dfmt⟩) =
+        Outcome.bind (Rt.decimalOfStr Gen.intClasses t) (fun d => .ok (Rt.PyVal.dec d)) := rfl
+    rw [e]
+    simp only [stringToPyType, Rt.decimalOfStr, ← hk]
+    cases pyDecimal env.classes t <;> rfl
+  | datetime =>
+    have e : Src._string_to_pytype t (toRtTyped ⟨ft, len, proc, .datetime, dfmt⟩) =
+        Outcome.bind (Rt.strptimeText Gen.intClasses t (fmtText dfmt)) (fun d => .ok (Rt.PyVal.dt d)) := rfl
+    rw [e]
+    simp only [stringToPyType, Rt.strptimeText, hpf, ← hk]
+    cases strptime env.classes dfmt t <;> rfl
+
+/-- C07 for the TRANSLATED typed conversion under the caller's handler (`except (ValueError, decimal.InvalidOperation)`
+    → the library error): for every text, every configured type and every date format it gives a value or the library's
+    data error — nothing else escapes and nothing diverges -/
+theorem C07_source_typed_conversion (env : Env) (f : FieldCfg) (t : Text) (hk : env.classes = Gen.intClasses)
+    (hfmt : NoPercent f.dateFmt) :
+    (∃ v, (Outcome.bind (Src._string_to_pytype t (toRtTyped f)) (fun v => .ok (valOfPy v))).catchAs isConvError = .ok v) ∨
+      (Outcome.bind (Src._string_to_pytype t (toRtTyped f)) (fun v => .ok (valOfPy v))).catchAs isConvError = .dataError := by
+  rw [string_to_pytype_eq env f t hk hfmt]
+  exact Props.C07.C07_typed_conversion env f t
 
 end Cardutil.SrcTie
